@@ -14,13 +14,13 @@ pub const SPECS: &[PropSpec] = &[
     PropSpec { id: "C13", level: "exploration", quick_runs: 25_000, thorough_runs: 600_000,
         rule: "seeded base history H (all four policy kinds) and H+ = H with 3-10 rejected / no-op calls (create existing, delete/truncate/append missing, append past, retry of last position with a fresh non-empty batch, empty batch with every position style) inserted at PRNG points; oracle: each inserted call performs no mutating fs effect, reports wal_bytes_written 0 and leaves the state unchanged; differential: aligned calls of H and H+ have identical outcomes, states and write effects (offset, length, content hash) and the WAL images after the final clean drop are byte-identical. Non-trivial: >= 3 distinct shapes inserted, followed by >= 1 flush and a restart. Distinct: base history signature x inserted shapes.",
         assumptions: &["a read-only or sync effect during a rejected call is not a violation (the statement speaks of contents)"] },
-    PropSpec { id: "C14", level: "exploration", quick_runs: 16_000, thorough_runs: 300_000,
+    PropSpec { id: "C14", level: "exploration", quick_runs: 16_000, thorough_runs: 600_000,
         rule: "one seeded history (with clock ticks 0 .. > 2h and explicit persists) executed under 5 policies drawn from {DoNothing, OnDelay{1 ns, 1 ms, 1 s, 1 h} x {Flush, FlushAndFsync}, Always(Flush), Always(FlushAndFsync)}, same hash seed and knobs; oracle: executions agree call by call on outcomes (positions, eviction counts, errors) and on the full observable state, and again after the final restart. Non-trivial: the history rolled over and the executions' effect traces differ. Distinct: history signature.",
         assumptions: &["wal_bytes_written and final image equality are statistics only (the statement does not promise them)"] },
-    PropSpec { id: "C18", level: "exploration", quick_runs: 8_000, thorough_runs: 200_000,
+    PropSpec { id: "C18", level: "exploration", quick_runs: 8_000, thorough_runs: 40_000,
         rule: "seeded history H over 2-5 queues sharing files, with restarts; for every queue q the projection H|q (calls addressed to q + restarts/persists/ticks) runs on a fresh simulated disk; oracle (no reference model): outcomes of q's calls and exists/range/last_position/last_record of q agree at every corresponding point. Crash variant: crash inside a call addressed to another queue at sampled effect boundaries and torn writes, recover, q must equal its projection; under flush-per-call policies always, under DoNothing/OnDelay only when every call addressed to q had reached the OS (explicit persist, create/delete of any queue or clean restart after q's last call) before the crash. Non-trivial: a call addressed to another queue deleted a WAL file during the history. Distinct: history signature x q.",
         assumptions: &["process-crash model for the crash variant"] },
-    PropSpec { id: "C07", level: "exploration", quick_runs: 60_000, thorough_runs: 3_000_000,
+    PropSpec { id: "C07", level: "exploration", quick_runs: 60_000, thorough_runs: 6_000_000,
         rule: "directed histories: filler appends steer the write cursor so that r bytes remain in the block (r in 0..=24 or random), then an entry whose length leaves r' bytes (r' in 0..=24 or random) after spanning {0,1,2,3,5} extra blocks (up to ~160 KiB: crosses 1-2 four-block files), followed by {empty-payload append, 1-frame entry, multi-block entry, truncate, restart, restart-then-append, torn tail: the process dies inside a following multi-block entry (flush-per-call policies), recovery, three more entries, restart}; the first 21 875 run indices walk the complete 25x25x5x7 grid, later ones draw random cells. Oracle: (a) an independent WAL parser reads back from the SimFs image exactly the entries the calls should have produced, frames never cross a block, padding only where < 7 B remained; (b) after restart the crate's own reader yields the model state; (c) the next write lands where the parser says the log ends. Non-trivial: entry under test spans >= 2 frames, or r < 8, or r' < 8, or crosses a file end. Distinct: (r class, r' class, blocks spanned, follow-up kind).",
         assumptions: &["pure input-space statement: no fault is injected; the simulator contributes simulated files, restart at the same alignment and cursor steering"] },
 ];
